@@ -49,7 +49,7 @@ PROPS["C02"] = {
         {"pkg": "app", "name": "VerifC02_Loop", "quick": {"d": 1}, "thorough": {"d": 2}, "replay_repeat": 3, "native_timeout": 45, "reach": ["end", "relaunch"],
          "bounds": {"attempts": "<=4 scripted exits (codes 0/3 per attempt, each attempt running 0 or 3 virtual seconds), then runs until stopped", "policy": "no/always/on_failure/exit_on_failure",
                     "max_restarts": "{0,1,2}", "backoff_seconds": "{0,2}", "stop request": "none or one, at any labelled instant"}},
-        {"pkg": "app", "name": "VerifC02_Shutdown", "quick": {"d": 1}, "thorough": {"d": 2}, "replay_repeat": 6,
+        {"pkg": "app", "name": "VerifC02_Shutdown", "quick": {"d": 2}, "thorough": {"d": 3}, "replay_repeat": 6,
          "bounds": {"N": 2, "scenario": "restart-always worker whose command exits by itself at any point of a project shutdown (ordered or unordered) that is kept busy by a slow process with a 2s shutdown timeout"}},
     ],
     "stubs": [],
@@ -213,7 +213,7 @@ _lv("C19", "Every JSON handler of pc_api.go against a recording IProject with sy
 
 PROPS["C01"] = {
     "harnesses": [
-        {"pkg": "app", "name": "VerifC01_Api", "quick": {"d": 0}, "thorough": {"d": 1}, "native": False, "reach": ["end", "launched.after.ready"],
+        {"pkg": "app", "name": "VerifC01_Api", "quick": {"d": 1}, "thorough": {"d": 2}, "native": False, "reach": ["end", "launched.after.ready"],
          "bounds": {"operation": "RestartProcess / StopProcess+StartProcess / ScaleProcess to 2 / UpdateProject adding a dependent", "dependency": "process_healthy that becomes ready later, or process_completed_successfully that failed"}},
         {"pkg": "app", "name": "VerifC01_Api2", "quick": {"d": 1}, "thorough": {"d": 2}, "native": False, "reach": ["end", "launched.after.ready"],
          "bounds": {"scenario": "dependent with a never-scheduled (disabled) sibling dependency, both depends_on orders / dependency restarted through the API before the dependent is started / UpdateProject adding a dependency and its dependent at once, every map order / a process_log_ready dependency stopped or restarted through the API before its ready line",
@@ -263,7 +263,7 @@ PROPS["C09"] = {
     "harnesses": [
         {"pkg": "app", "name": "VerifC09_State", "quick": {}, "thorough": {},
          "bounds": {"status": "arbitrary string len<=12", "exit code": "[0,255]"}},
-        {"pkg": "app", "name": "VerifC09_Project", "quick": {"d": 0}, "thorough": {"d": 1}, "replay_repeat": 6,
+        {"pkg": "app", "name": "VerifC09_Project", "quick": {"d": 1}, "thorough": {"d": 2}, "replay_repeat": 6,
          "bounds": {"N": 2, "p0": "exit 0 / exit 3 / runs until stopped / start error; policy no or always(max 1)", "p1": "optional completed_successfully edge on p0",
                     "stop of p0": "none or at any labelled life-cycle point", "observer": "3 reads of the public state at arbitrary scheduling points"}},
     ],
